@@ -440,6 +440,19 @@ def bytewise(data):
     return [data[k:k + 1] for k in range(len(data))]
 
 
+def late_last(cases, late):
+    """Ordering only: cases lying in the region of a finding that is already reported are run (and still fail) after
+    all the others, so that they do not end the enumeration early (the runner stops at the fifth failure)."""
+    kept = []
+    for c in cases:
+        if late(c):
+            kept.append(c)
+        else:
+            yield c
+    for c in kept:
+        yield c
+
+
 def check_stream(stream, deliveries, modes=("now",)):
     verdicts = {}
     for mode in modes:
@@ -547,38 +560,54 @@ class FramingHeaders(Bounded):
              "Content-Length spellings, 24 Transfer-Encoding spellings, 14 neutral/malformed lines incl. obs-fold, "
              "whitespace before colon, NUL, bare CR/LF injection) or 3 (all triples of 11 core lines) field lines; "
              "3 continuations (chunked body, 3 raw bytes, nothing) each followed by a pipelined request, so that every "
-             "framing decision yields a different observable result; one delivery (+ byte-at-a-time for singles "
-             "and triples); a 4401-digit Content-Length")
+             "framing decision yields a different observable result; single field lines under every 2-way split, "
+             "byte-at-a-time, application answering at once / only at the end; pairs and triples in one delivery "
+             "(thorough: also byte-at-a-time and late answers, plus 30000 seeded random heads of 3-5 lines); "
+             "a 4401-digit Content-Length")
     functions = ["HTTPChannel.lineReceived", "HTTPChannel.headerReceived", "HTTPChannel._maybeChooseTransferDecoder",
                  "HTTPChannel._failChooseTransferDecoder", "HTTPChannel.allHeadersReceived",
                  "HTTPChannel.allContentReceived", "_IdentityTransferDecoder.dataReceived",
                  "_ChunkedTransferDecoder.dataReceived", "Headers.addRawHeader"]
 
     def cases(self, tier, rng):
+        def late(case):  # Transfer-Encoding: identity next to a Content-Length; the 4401-digit Content-Length
+            names = [h.lower() for h in case[1]]
+            return (any(b"identity" in h for h in names) and any(h.lstrip().startswith(b"content-length") for h in names)
+                    ) or any(len(h) > 4000 for h in names)
+        return late_last(self._cases(tier, rng), late)
+
+    def _cases(self, tier, rng):
         pool = _CL + _TE + _OTHER
         for h in pool:
             for body in _BODIES:
                 for ver in (b"HTTP/1.1", b"HTTP/1.0"):
-                    yield (ver, (h,), body, True)
+                    yield (ver, (h,), body, "splits")
         for h1 in pool:
             for h2 in pool:
                 for k, body in enumerate(_BODIES):
-                    yield (b"HTTP/1.1", (h1, h2), body, False)
+                    yield (b"HTTP/1.1", (h1, h2), body, "one" if tier == "quick" else "fine")
                     if tier != "quick" or k == 0:
-                        yield (b"HTTP/1.0", (h1, h2), body, False)
+                        yield (b"HTTP/1.0", (h1, h2), body, "one")
         for hs in itertools.product(_CORE, repeat=3):
             for body in _BODIES:
-                yield (b"HTTP/1.1", hs, body, tier != "quick")
-        yield (b"HTTP/1.1", (b"Content-Length: " + b"0" * 4400 + b"3",), _BODIES[1], False)
+                yield (b"HTTP/1.1", hs, body, "one" if tier == "quick" else "fine")
+        yield (b"HTTP/1.1", (b"Content-Length: " + b"0" * 4400 + b"3",), _BODIES[1], "one")
         if tier != "quick":
             for _ in range(30000):
                 hs = tuple(rng.choice(pool) for _ in range(rng.randrange(3, 6)))
-                yield (rng.choice((b"HTTP/1.1", b"HTTP/1.0")), hs, rng.choice(_BODIES), False)
+                yield (rng.choice((b"HTTP/1.1", b"HTTP/1.0")), hs, rng.choice(_BODIES), "one")
+
+    def nontrivial(self, case):
+        return len(case[1]) >= 2
 
     def check(self, case):
-        ver, hs, body, fine = case
+        ver, hs, body, how = case
         stream = b"POST / " + ver + CRLF + b"".join(h + CRLF for h in hs) + CRLF + body
-        return check_stream(stream, [[stream], bytewise(stream)] if fine else [[stream]])
+        if how == "one":
+            return check_stream(stream, [[stream]])
+        if how == "fine":
+            return check_stream(stream, [[stream], bytewise(stream)], ("now", "end"))
+        return check_stream(stream, [[stream], bytewise(stream)] + list(two_way(stream)), ("now", "end"))
 
 
 # ---------------------------------------------------------------------------------------------------------
@@ -630,6 +659,13 @@ class ChunkedBody(Bounded):
                  "HTTPChannel._finishRequestBody", "_hexint"]
 
     def cases(self, tier, rng):
+        # a backslash (quoted-pair) inside a chunk extension: reported finding, run last
+        return late_last(self._cases(tier, rng), lambda case: b"\\" in case[0])
+
+    def nontrivial(self, case):
+        return CRLF in case[0]
+
+    def _cases(self, tier, rng):
         seen = set()
 
         def fresh(body, how):
@@ -674,7 +710,7 @@ class ChunkedBody(Bounded):
             return check_stream(stream, [[stream], bytewise(stream)] + cut, ("now", "end"))
         if how == "fine":
             tail = body + NEXT
-            return check_stream(stream, [[stream], [_CHUNK_HEAD] + bytewise(tail)])
+            return check_stream(stream, [[stream], [_CHUNK_HEAD] + bytewise(tail)], ("now", "end"))
         return check_stream(stream, [[stream]])
 
 
@@ -818,6 +854,11 @@ class WellFormedAgainstH11(Bounded):
     SLOTS = [_G_METHOD, _G_TARGET, _G_VERSION, list(range(4)), _G_OWS, _G_PAYLOAD, _G_CHUNKING, _G_EXTRA]
 
     def cases(self, tier, rng):
+        # chunk extensions with a quoted-pair (backslash): reported finding, run last
+        late = self.SLOTS[6].index("ext")
+        return late_last(self._cases(tier, rng), lambda pick: pick[6] == late)
+
+    def _cases(self, tier, rng):
         sizes = [len(s) for s in self.SLOTS]
         seen = set()
         order = 2 if tier == "quick" else 3
